@@ -548,6 +548,15 @@ def check_backends(root: str, files, rng: random.Random, stats=None) -> list[tup
                 elif got != op:
                     out.append((f'lookup-{name}-get-open-differ', f'{name}: {q!r}: fs[q] gives {got!r}, open_bin(q) gives {op!r}',
                                 {'op': 'lookup', 'backend': name, 'files': fj, 'query': q}))
+                if cls in ('exact', 'case-and-slash-variant'):
+                    # the remaining public forms: _get_file, _file_exists, open_str, File.open_str
+                    forms = read_forms(fs, q, 'utf8')
+                    if stats is not None:
+                        stats('lookup_observations', 4)
+                    for form, kind in forms_problems(forms, okb):
+                        if form in ('get_file', 'file_exists', 'open_str', 'file_open_str'):
+                            out.append((f'lookup-{name}-{form}-{kind}', f'{name}: stored {nm!r} queried as {q!r}: {form} gave {forms[form]!r}',
+                                        {'op': 'lookup', 'backend': name, 'files': fj, 'query': q, 'expected_bytes': sorted(x.decode() for x in okb)}))
             for q in absent:
                 ex, got, op = impl_lookup(fs, q)
                 if ex is not False or got is not None or op is not None:
@@ -692,6 +701,175 @@ def check_nonascii(root: str, files, rng: random.Random, stats=None) -> list[tup
     return out
 
 
+# ------------------------------------------------------------------------------------------------ oracle: file contents
+# 'return the same bytes' for every place a VPK can keep a file's data: the preload bytes inside the directory tree
+# (FileInfo.start_data), the block after the tree of the _dir / single file (VPK.footer_data, arch_index None), a numbered
+# archive, and splits between the preload and either of the other two; sizes around the two limits (dir_data_limit,
+# default 1024; the 16-bit preload size 65535).
+SIZES_SMALL = [0, 1, 2, 5, 17, 100]
+SIZES_LARGE = [1023, 1024, 1025, 4096, 65535, 65536, 70000]
+VPK_PLACEMENTS = ['vpk-multi-default', 'vpk-multi-archive', 'vpk-multi-dirtail', 'vpk-multi-nolimit', 'vpk-single']
+LOOKUP_FORMS = ['getitem', 'get_file', 'open_bin', 'open_str', 'file_open_str', 'contains', 'file_exists']
+
+
+def content_bytes(name: str, size: int) -> bytes:
+    """Deterministic printable content (no '\r': open_str translates newlines) that differs per name and per offset."""
+    if size == 0:
+        return b''
+    seed = sum(name.encode()) % 251
+    unit = bytes(33 + ((seed + 7 * i) % 90) for i in range(97)) + b'\n'
+    out = (f'<{name}:{size}>'.encode() + unit * (size // len(unit) + 1))[:size]
+    return out[:-1] + b'$' if size > 1 else out
+
+
+def gen_sized_files(rng: random.Random) -> list[tuple[str, int]]:
+    names = [nm for nm, _ in gen_files(rng, allow_dups=False)]
+    out = []
+    large = 0
+    for nm in names:
+        if large < 2 and rng.random() < 0.45:
+            out.append((nm, rng.choice(SIZES_LARGE)))
+            large += 1
+        else:
+            out.append((nm, rng.choice(SIZES_SMALL)))
+    return out
+
+
+def placement_params(rng: random.Random, placement: str, n: int) -> dict:
+    """How the VPK of one placement class is written: file name (…_dir.vpk = multi-part), dir_data_limit, arch_index per file."""
+    if placement == 'vpk-multi-default':
+        return {'file': 'p_dir.vpk', 'limit': 1024, 'arch': [0] * n}
+    if placement == 'vpk-multi-archive':
+        return {'file': 'q_dir.vpk', 'limit': rng.choice([0, 1, 3, 16]), 'arch': [rng.choice([0, 0, 1, 2]) for _ in range(n)]}
+    if placement == 'vpk-multi-dirtail':
+        return {'file': 'r_dir.vpk', 'limit': rng.choice([0, 1, 3, 16, 1024]), 'arch': [None] * n}
+    if placement == 'vpk-multi-nolimit':
+        return {'file': 's_dir.vpk', 'limit': None, 'arch': [rng.choice([0, None]) for _ in range(n)]}
+    return {'file': 'single.vpk', 'limit': rng.choice([1024, 4]), 'arch': [rng.choice([0, None]) for _ in range(n)]}
+
+
+def build_vpk_placement(dirpath: str, files, params: dict):
+    from srctools.filesys import VPKFileSystem
+    from srctools.vpk import VPK
+    os.makedirs(dirpath, exist_ok=True)
+    vp = os.path.join(dirpath, params['file'])
+    with VPK(vp, mode='w', dir_data_limit=params['limit']) as vk:
+        for (n, b), ai in zip(files, params['arch']):
+            vk.add_file(n, b, arch_index=ai)
+    return VPKFileSystem(vp)
+
+
+def vpk_place_class(info) -> str:
+    pre, tail = len(info.start_data), info.arch_len
+    where = 'dirtail' if info.arch_index is None else 'archive'
+    if not tail:
+        return 'preload-only' if pre else 'empty'
+    return f'preload+{where}' if pre else f'{where}-only'
+
+
+def read_forms(fs, q: str, encoding: str = 'latin-1') -> dict:
+    """Every public way of asking a filesystem (or chain) for the name q.  Bytes, None (= not found), bool, or 'ExcName'."""
+    def rd(opener, text=False):
+        try:
+            with opener() as fh:
+                d = fh.read()
+            return d.encode(encoding) if text else d
+        except (FileNotFoundError, IsADirectoryError):
+            return None
+        except Exception as e:      # noqa: BLE001 - an exception is a result
+            return type(e).__name__
+    def ex(fn):
+        try:
+            return bool(fn())
+        except Exception as e:      # noqa: BLE001
+            return type(e).__name__
+    return {
+        'getitem': rd(lambda: fs[q].open_bin()),
+        'get_file': rd(lambda: fs._get_file(q).open_bin()),
+        'open_bin': rd(lambda: fs.open_bin(q)),
+        'open_str': rd(lambda: fs.open_str(q, encoding), True),
+        'file_open_str': rd(lambda: fs[q].open_str(encoding), True),
+        'contains': ex(lambda: q in fs),
+        'file_exists': ex(lambda: fs._file_exists(q)),
+    }
+
+
+def forms_problems(forms: dict, want) -> list[tuple[str, str]]:
+    """(form, kind) for every form that disagrees with `want` (a set of acceptable bytes, or None = the name does not exist)."""
+    out = []
+    for form, got in forms.items():
+        if form in ('contains', 'file_exists'):
+            if got is not (want is not None):
+                out.append((form, 'says-missing' if want is not None else 'says-present'))
+        elif want is None:
+            if got is not None:
+                out.append((form, 'phantom'))
+        elif got is None:
+            out.append((form, 'not-found'))
+        elif isinstance(got, str):
+            out.append((form, 'raised-' + got))
+        elif got not in want:
+            w = next(iter(want))
+            out.append((form, 'truncated' if len(got) < len(w) and w.startswith(got) else 'wrong-bytes'))
+    return out
+
+
+def check_content(root: str, sized, params: dict, stats=None, hist=None) -> list[tuple[str, str, dict]]:
+    """Same bytes from every backend, for every VPK placement and every way of opening a file."""
+    from srctools.filesys import FileSystemChain
+    out: list[tuple[str, str, dict]] = []
+    files = [(nm, content_bytes(nm, sz)) for nm, sz in sized]
+    rep = {'op': 'content', 'files(name,size)': [list(x) for x in sized], 'placements': params}
+    bt = Built(root, files, ['virtual', 'zip', 'raw'])
+    try:
+        fss = dict(bt.fs)
+        for pl, prm in params.items():
+            fss[pl] = build_vpk_placement(os.path.join(bt.dir, pl), files, prm)
+            if hist is not None:
+                for info in fss[pl].vpk:
+                    hist('vpk_data_placement', vpk_place_class(info))
+        for name, fs in fss.items():
+            for nm, b in files:
+                szc = 'large' if len(b) > 1000 else 'small'
+                forms = read_forms(fs, nm)
+                if stats is not None:
+                    stats('content_observations', len(forms))
+                for form, kind in forms_problems(forms, {b}):
+                    got = forms[form]
+                    out.append((f'content-{name}-{form}-{kind}',
+                                f'{name}: {form}({nm!r}) gave {len(got) if isinstance(got, bytes) else got!r} bytes, the file has {len(b)}',
+                                dict(rep, backend=name, name=nm, size=len(b), size_class=szc)))
+            # the listed File objects open to the same bytes (walk_folder and __iter__)
+            for how, lister in (('walk', lambda fs=fs: fs.walk_folder('')), ('iter', lambda fs=fs: iter(fs))):
+                try:
+                    listed = {}
+                    for fl in lister():
+                        with fl.open_bin() as fh:
+                            listed[fold(fl.path)] = fh.read()
+                except Exception as e:      # noqa: BLE001
+                    out.append((f'content-{name}-{how}-exception', f'{name}: {how} raised {type(e).__name__}: {e}', dict(rep, backend=name)))
+                    continue
+                if stats is not None:
+                    stats('content_observations', len(listed))
+                want = {fold(nm): b for nm, b in files}
+                if listed != want:
+                    badn = sorted(k for k in set(listed) | set(want) if listed.get(k) != want.get(k))
+                    trunc = all(k in listed and k in want and want[k].startswith(listed[k]) for k in badn)
+                    out.append((f'content-{name}-{how}-listed-file-' + ('truncated' if trunc else 'differs'),
+                                f'{name}: files listed by {how} open to other bytes than stored for {badn[:3]}', dict(rep, backend=name)))
+            # ... and through a chain (File.open_bin -> member.open_bin(File))
+            if name.startswith('vpk') and not any(k.startswith(f'content-{name}-') for k, _, _ in out):
+                ch = FileSystemChain(fs)
+                for nm, b in files:
+                    forms = read_forms(ch, nm)
+                    for form, kind in forms_problems(forms, {b}):
+                        out.append((f'content-chain-over-{name}-{form}-{kind}', f'chain over {name}: {form}({nm!r}) disagrees with the stored {len(b)} bytes',
+                                    dict(rep, backend=name, name=nm, size=len(b))))
+    finally:
+        bt.close()
+    return out
+
+
 # ------------------------------------------------------------------------------------------------ oracle: chains
 def check_chain(root: str, sets, members, rng: random.Random, stats=None) -> list[tuple[str, str, dict]]:
     """members: [(backend kind, set index, prefix, priority)]. Reference computed from the file sets only."""
@@ -743,16 +921,26 @@ def check_chain(root: str, sets, members, rng: random.Random, stats=None) -> lis
                 want = member_has(kind, j, pfx, q)
                 if want is not None:
                     break
-            try:
-                with ch[q].open_bin() as fh:
-                    got = fh.read()
-            except FileNotFoundError:
-                got = None
+            # every public lookup form of the chain against the same specification
+            forms = read_forms(ch, q, 'utf8')
+            got = forms['getitem']
             if stats is not None:
-                stats('chain_get_observations', 1)
-            if (want is None) != (got is None) or (want is not None and got not in want):
-                out.append(('chain-get-not-first-match', f'chain[{q!r}] gave {got!r}, the first member holding it has {want!r}',
-                            dict(rep, query=q)))
+                stats('chain_get_observations', len(forms))
+            for form, kind in forms_problems(forms, want):
+                if form == 'getitem':
+                    out.append(('chain-get-not-first-match', f'chain[{q!r}] gave {got!r}, the first member holding it has {want!r}',
+                                dict(rep, query=q)))
+                else:
+                    out.append((f'chain-{form}-{kind}', f'chain: {form}({q!r}) gave {forms[form]!r}; chain[{q!r}] gives {got!r}, the first '
+                                f'member holding the name has {want!r}', dict(rep, query=q)))
+        # iteration = the root walk
+        try:
+            it_listed = [fl.path for fl in ch]
+            root_listed = [fl.path for fl in ch.walk_folder('')]
+            if it_listed != root_listed:
+                out.append(('chain-iter-differs-from-root-walk', f'iter(chain) listed {it_listed}, walk_folder(\'\') {root_listed}', dict(rep)))
+        except Exception as e:      # noqa: BLE001
+            out.append(('chain-iter-exception', f'iter(chain) raised {type(e).__name__}: {e}', dict(rep)))
         # walks
         if raw_members:
             folders = [('', 'root')]
@@ -893,6 +1081,12 @@ CORPUS_CHAINS = [
 ]
 
 
+CORPUS_SIZED = [
+    [('models/props/crate.mdl', 1025), ('sound/ambient/hum.wav', 65536), ('top.txt', 5), ('materials/Dev/Wall.vmt', 0)],
+    [('a/big.bin', 70000), ('a/edge.bin', 65535), ('b/limit.txt', 1024), ('b/one.txt', 1)],
+]
+
+
 def shrink_files(files, pred):
     cur = list(files)
     changed = True
@@ -937,6 +1131,32 @@ def search(ck: Ck, root: str) -> None:
                 continue
             small = shrink_files(files, lambda fs, key=key: any(k == key for k, _, _ in check_backends(root, fs, random.Random(seed))))
             v2 = [x for x in check_backends(root, small, random.Random(seed)) if x[0] == key]
+            note(v2 or [x for x in v if x[0] == key])
+    # contents: every VPK placement, sizes around the preload limits, every way of opening
+    for i in range(ck.budget(8, 60)):
+        sized = CORPUS_SIZED[i] if i < len(CORPUS_SIZED) else gen_sized_files(ck.rng)
+        if not sized:
+            continue
+        prng = random.Random(ck.rng.randrange(1 << 30))
+        params = {pl: placement_params(prng, pl, len(sized)) for pl in VPK_PLACEMENTS}
+        ck.count('sized_file_sets')
+        for _, sz in sized:
+            ck.hist('content_size', sz)
+        if len(sized) > 1:
+            ck.seen(('sized', tuple(sized), repr(params)))
+        v = check_content(root, sized, params, stats, ck.hist)
+        for key in {k for k, _, _ in v}:
+            cur_s, cur_p = list(sized), params
+            changed = True
+            while changed and len(cur_s) > 1:
+                changed = False
+                for j in range(len(cur_s)):
+                    cs = cur_s[:j] + cur_s[j + 1:]
+                    cp = {pl: dict(prm, arch=prm['arch'][:j] + prm['arch'][j + 1:]) for pl, prm in cur_p.items()}
+                    if any(k == key for k, _, _ in check_content(root, cs, cp)):
+                        cur_s, cur_p, changed = cs, cp, True
+                        break
+            v2 = [x for x in check_content(root, cur_s, cur_p) if x[0] == key]
             note(v2 or [x for x in v if x[0] == key])
     for files in NONASCII_SETS:
         ck.count('file_sets_nonascii')
@@ -1096,6 +1316,10 @@ def replay(data: dict) -> int:
         elif r.get('op') == 'nonascii':
             files = [(a, b.encode()) for a, b in r['files']]
             for k, what, _ in check_nonascii(root, files, random.Random(data.get('seed', 0))):
+                print('FOUND', k, '-', what)
+        elif r.get('op') == 'content':
+            sized = [tuple(x) for x in r['files(name,size)']]
+            for k, what, _ in check_content(root, sized, r['placements']):
                 print('FOUND', k, '-', what)
         elif r.get('op') == 'chain':
             sets = [[(a, b.encode()) for a, b in s] for s in r['sets']]
